@@ -1,5 +1,6 @@
 // witness: instantiates the tensor indexing / view / reshape templates for ranks 1..5 (parsed only, never run)
 #include <nano/tensor.h>
+#include <nano/tensor/integral.h>
 
 using namespace nano;
 
@@ -125,4 +126,16 @@ void witness_tensor(tensor_mem_t<double, 1>& t1, tensor_mem_t<double, 2>& t2, te
     m3 = o3;
     m3 = k3;
     m3 = m4;
+}
+
+// summed-area tables: narrow inputs accumulated into wide outputs (the reason integral() takes two scalar types)
+void witness_integral(tensor_cmap_t<int8_t, 1> a1, tensor_map_t<int32_t, 1> b1, tensor_cmap_t<int8_t, 2> a2, tensor_map_t<int32_t, 2> b2,
+                      tensor_cmap_t<uint16_t, 3> a3, tensor_map_t<int64_t, 3> b3, tensor_cmap_t<float, 2> f2, tensor_map_t<double, 2> d2,
+                      const tensor_mem_t<int32_t, 2>& i2, tensor_mem_t<int64_t, 2>& o2)
+{
+    integral(a1, b1);
+    integral(a2, b2);
+    integral(a3, b3);
+    integral(f2, d2);
+    integral(i2, o2);
 }
